@@ -222,6 +222,9 @@ class Bits:
                         d = [bxor(x, y) for x, y in zip(va, vb)]
                         if all(x == ZERO for x in d): return [ONE if op == 'eq' else ZERO]
                         if any(x == ONE for x in d): return [ZERO if op == 'eq' else ONE]
+                        nz = [x for x in d if x != ZERO]
+                        if len(nz) == 1 and nz[0] is not None:
+                            return [bnot(nz[0]) if op == 'eq' else nz[0]]
                 return [None]
             if w is None: return None
             va, vb = self.ev(a), self.ev(b)
